@@ -776,16 +776,20 @@ func (r *Run) childrenPlacement(closures []*genClosure) {
 
 // cssHoisting (C12, before-use half for component classes): the generator declares the items of a class expression
 // as  var v = []any{...}  and must hand exactly that variable to templ.RenderCSSItems before the attribute is written
-// from templ.CSSClasses(v) - in the same statement list, so that it runs whenever the use runs, whatever happened in
+// from templ.CSSClasses(v) - earlier in the statement list of the use or of a statement list that encloses it, so that it runs whenever the use runs, whatever happened in
 // branches or loops before. One obligation per use.
 func (r *Run) cssHoisting(closures []*genClosure) {
 	for _, gc := range closures {
 		info := gc.pkg.TypesInfo
 		k := 0
-		var visitList func(list []ast.Stmt)
-		var visit func(n ast.Node)
-		visitList = func(list []ast.Stmt) {
+		var visitList func(list []ast.Stmt, outer map[types.Object]bool)
+		var visit func(n ast.Node, hoisted map[types.Object]bool)
+		visitList = func(list []ast.Stmt, outer map[types.Object]bool) {
+			// what an enclosing statement list has handed over before this point dominates every use in here
 			hoisted := map[types.Object]bool{}
+			for k, v := range outer {
+				hoisted[k] = v
+			}
 			for _, st := range list {
 				// templ_7745c5c3_Err = templ.RenderCSSItems(ctx, buf, v...)
 				if as, ok := st.(*ast.AssignStmt); ok && len(as.Rhs) == 1 {
@@ -821,15 +825,15 @@ func (r *Run) cssHoisting(closures []*genClosure) {
 						Note: "the class items " + id.Name + " are handed to templ.RenderCSSItems in the statement list of their use, before it"}
 					if !hoisted[info.Uses[id]] {
 						o.Goal, o.Verdict = False, "sat"
-						o.Note = "the class attribute is written from templ.CSSClasses(" + id.Name + "), but " + id.Name + " is not handed to templ.RenderCSSItems in the same statement list before the use: when an earlier occurrence did not run, the class name is used without its rule"
+						o.Note = "the class attribute is written from templ.CSSClasses(" + id.Name + "), but " + id.Name + " is not handed to templ.RenderCSSItems earlier in the statement list of the use (or in one that encloses it): when an earlier occurrence did not run, the class name is used without its rule"
 					}
 					r.e.addObl(o)
 					return true
 				})
-				visit(st)
+				visit(st, hoisted)
 			}
 		}
-		visit = func(n ast.Node) {
+		visit = func(n ast.Node, hoisted map[types.Object]bool) {
 			ast.Inspect(n, func(m ast.Node) bool {
 				if m == n {
 					return true
@@ -838,15 +842,15 @@ func (r *Run) cssHoisting(closures []*genClosure) {
 				case *ast.FuncLit:
 					return false // a block closure is a closure of its own
 				case *ast.BlockStmt:
-					visitList(x.List)
+					visitList(x.List, hoisted)
 					return false
 				case *ast.CaseClause:
-					visitList(x.Body)
+					visitList(x.Body, hoisted)
 					return false
 				}
 				return true
 			})
 		}
-		visitList(gc.lit.Body.List)
+		visitList(gc.lit.Body.List, nil)
 	}
 }
